@@ -1,183 +1,272 @@
 (* C08 — Exclusion patterns protect exactly what they name, in every operation.
+   The theorems are about the model INSTANTIATED WITH THE FACTS GENERATED FROM THE SOURCE (Gen.v, written on every run
+   by translator-c08/cmd/excl2coq from exclusion.go, files.go, zip.go): [grun_op gen op raw root dest base t] is what
+   the operation returns for the raw pattern list [raw] on the tree [t] rooted at path [root].
+   Each proof applies a lemma of ProofsGen.v that holds for EVERY facts record satisfying the conditions of the operation
+   concerned (x_ok, walk_ok, ls_ok, ... : which string is tested, whether the filtered listing is used, whether the
+   recursion hands the patterns down, that the operation adds no pattern of its own, where the patterns are validated)
+   and discharges these conditions on [gen] by computation ([facts]): a change of a fact breaks exactly the theorems of
+   the operations that depend on it.
    Vocabulary (Proofs.v): [hit pats s] some pattern finds a match inside s; [fully_matched pats rel] a component of the
-   relative path rel is matched IN FULL by a pattern (the entry is, or lies beneath, an entry whose name is matched in
-   full); [clear pats rel] no component of rel contains a match; [at_path t rel m] the tree t holds the entry m at rel.
-   The statements are about E = expand pats, the compiled list NewExclusionRegexList builds (three forms per pattern),
-   for EVERY tree, EVERY list of anchor-free patterns, EVERY root path.
+   relative path rel is matched IN FULL by a pattern; [clear pats rel] no component of rel contains a match;
+   [at_path t rel m] the tree t holds the entry m at rel.  For EVERY tree, EVERY pattern list, EVERY root path.
    sound    : what is reported / copied / archived has no fully matched component; what has one is not deleted;
-   complete : an entry at a clear path (root path without a match) is reported / copied / archived / deleted.
-   Whatever lies in between (a component merely CONTAINS a match) is left unconstrained, as in the property. *)
+   complete : an entry at a clear path (root path without a match) is reported / copied / archived / deleted. *)
 From Coq Require Import List ZArith Bool.
 Import ListNotations.
-From GU Require Import C08.Regex C08.Model C08.Proofs.
+From GU Require Import C08.Regex C08.Model C08.Proofs C08.ProofsGen C08.Gen.
 Local Open Scope Z_scope.
 
-(* the two extra forms of every pattern (".*/p/.*" and, on Linux, ".*47p47.*") never decide anything *)
-Theorem expansion_adds_nothing : forall pats s, excl (expand pats) s = true <-> hit pats s.
-Proof. exact excl_expand_iff. Qed.
+Ltac facts := repeat split; reflexivity.
+
+(* exclusion.go: whatever forms are appended per pattern, as long as the pattern itself is among them the compiled
+   list decides exactly "some pattern finds a match" *)
+Theorem expansion_adds_nothing : forall pats s, excl (gexpand gen pats) s = true <-> hit pats s.
+Proof. intros. apply excl_gexpand_iff. reflexivity. Qed.
 Print Assumptions expansion_adds_nothing.
 
-(* only the well-formed, non-blank patterns count; any uncompilable one rejects the call before anything happens *)
-Theorem invalid_pattern_rejected_first : forall op raw root dest base t,
-  In Bad raw -> run_op op raw root dest base t = RInvalid.
-Proof. exact run_op_invalid. Qed.
-Print Assumptions invalid_pattern_rejected_first.
-
 Theorem compiled_patterns_are_the_good_ones : forall raw pats,
-  compile raw = Some pats -> forall r, In r pats <-> In (Good r) raw.
-Proof. exact compile_good. Qed.
+  gcompile gen raw = Some pats -> forall r, In r pats <-> In (Good r) raw.
+Proof. intros raw pats. apply gcompile_good. reflexivity. Qed.
 Print Assumptions compiled_patterns_are_the_good_ones.
 
 (* ---- walk ---- *)
-Theorem walk_excl_sound : forall pats root t rel d,
-  In (rel, d) (walk (expand pats) root t) -> ~ fully_matched pats rel.
-Proof. intros pats root t rel d H F. apply walk_exact in H as (_ & m & _ & _ & C). eapply fully_matched_not_clear; eauto. Qed.
+Theorem walk_excl_sound : forall raw pats root dest base t, gcompile gen raw = Some pats ->
+  exists out, grun_op gen OWalk raw root dest base t = GOut out /\
+              forall rel d, In (rel, d) out -> ~ fully_matched pats rel.
+Proof.
+  intros. eexists. split; [apply g_walk_out; [facts|facts|eassumption]|].
+  intros rel d I M. apply walk_exact in I as (_ & m & _ & _ & C). eapply fully_matched_not_clear; eauto.
+Qed.
 Print Assumptions walk_excl_sound.
 
-Theorem walk_excl_complete : forall pats root t rel m,
-  ~ hit pats root -> at_path t rel m -> clear pats rel -> In (rel, is_dir m) (walk (expand pats) root t).
-Proof. intros. apply walk_exact. split; auto. exists m. auto. Qed.
+Theorem walk_excl_complete : forall raw pats root dest base t rel m, gcompile gen raw = Some pats ->
+  ~ hit pats root -> at_path t rel m -> clear pats rel ->
+  exists out, grun_op gen OWalk raw root dest base t = GOut out /\ In (rel, is_dir m) out.
+Proof.
+  intros. eexists. split; [apply g_walk_out; [facts|facts|eassumption]|].
+  apply walk_exact. split; auto. exists m. auto.
+Qed.
 Print Assumptions walk_excl_complete.
 
 (* ---- list ---- *)
-Theorem ls_excl_sound : forall pats t rel d, In (rel, d) (ls (expand pats) t) -> ~ fully_matched pats rel.
-Proof. intros pats t rel d H F. apply ls_exact in H as ((m & _ & _ & C) & _). eapply fully_matched_not_clear; eauto. Qed.
+Theorem ls_excl_sound : forall raw pats root dest base t, gcompile gen raw = Some pats ->
+  exists out, grun_op gen OLs raw root dest base t = GOut out /\
+              forall rel d, In (rel, d) out -> ~ fully_matched pats rel.
+Proof.
+  intros. eexists. split; [apply g_ls_out; [facts|facts|eassumption]|].
+  intros rel d I M. apply ls_exact in I as ((m & _ & _ & C) & _). eapply fully_matched_not_clear; eauto.
+Qed.
 Print Assumptions ls_excl_sound.
 
-Theorem ls_excl_complete : forall pats t x m,
-  at_path t [x] m -> clear pats [x] -> In ([x], is_dir m) (ls (expand pats) t).
-Proof. intros. apply ls_exact. split; auto. exists m. auto. Qed.
+Theorem ls_excl_complete : forall raw pats root dest base t x m, gcompile gen raw = Some pats ->
+  at_path t [x] m -> clear pats [x] ->
+  exists out, grun_op gen OLs raw root dest base t = GOut out /\ In ([x], is_dir m) out.
+Proof.
+  intros. eexists. split; [apply g_ls_out; [facts|facts|eassumption]|].
+  apply ls_exact. split; auto. exists m. auto.
+Qed.
 Print Assumptions ls_excl_complete.
 
 (* ---- recursive list ---- *)
-Theorem lsrec_excl_sound : forall pats root incl t rel d,
-  In (rel, d) (ls_rec (expand pats) root incl t) -> ~ fully_matched pats rel.
-Proof. intros pats root incl t rel d H F. apply ls_rec_exact in H as (_ & (m & _ & _ & C) & _). eapply fully_matched_not_clear; eauto. Qed.
+Theorem lsrec_excl_sound : forall raw pats root dest base t incl, gcompile gen raw = Some pats ->
+  exists out, grun_op gen (OLsRec incl) raw root dest base t = GOut out /\
+              forall rel d, In (rel, d) out -> ~ fully_matched pats rel.
+Proof.
+  intros. eexists. split; [apply g_lsrec_out; [facts|facts|facts|eassumption]|].
+  intros rel d I M. apply ls_rec_exact in I as (_ & (m & _ & _ & C) & _). eapply fully_matched_not_clear; eauto.
+Qed.
 Print Assumptions lsrec_excl_sound.
 
-Theorem lsrec_excl_complete : forall pats root incl t rel m,
+Theorem lsrec_excl_complete : forall raw pats root dest base t incl rel m, gcompile gen raw = Some pats ->
   ~ hit pats root -> at_path t rel m -> clear pats rel -> (incl = true \/ is_dir m = false) ->
-  In (rel, is_dir m) (ls_rec (expand pats) root incl t).
-Proof. intros. apply ls_rec_exact. repeat split; auto. exists m. auto. Qed.
+  exists out, grun_op gen (OLsRec incl) raw root dest base t = GOut out /\ In (rel, is_dir m) out.
+Proof.
+  intros. eexists. split; [apply g_lsrec_out; [facts|facts|facts|eassumption]|].
+  apply ls_rec_exact. repeat split; auto. exists m. auto.
+Qed.
 Print Assumptions lsrec_excl_complete.
 
 (* ---- tree listing ---- *)
-Theorem listtree_excl_sound : forall pats t rel d, In (rel, d) (list_tree (expand pats) t) -> ~ fully_matched pats rel.
-Proof. intros pats t rel d H F. apply list_tree_exact in H as ((m & _ & _ & C) & _). eapply fully_matched_not_clear; eauto. Qed.
+Theorem listtree_excl_sound : forall raw pats root dest base t, gcompile gen raw = Some pats ->
+  exists out, grun_op gen OListTree raw root dest base t = GOut out /\
+              forall rel d, In (rel, d) out -> ~ fully_matched pats rel.
+Proof.
+  intros. eexists. split; [apply g_tree_out; [facts|facts|eassumption]|].
+  intros rel d I M. apply list_tree_exact in I as ((m & _ & _ & C) & _). eapply fully_matched_not_clear; eauto.
+Qed.
 Print Assumptions listtree_excl_sound.
 
-Theorem listtree_excl_complete : forall pats t rel m,
-  at_path t rel m -> rel <> [] -> clear pats rel -> In (rel, is_dir m) (list_tree (expand pats) t).
-Proof. intros. apply list_tree_exact. split; auto. exists m. auto. Qed.
+Theorem listtree_excl_complete : forall raw pats root dest base t rel m, gcompile gen raw = Some pats ->
+  at_path t rel m -> rel <> [] -> clear pats rel ->
+  exists out, grun_op gen OListTree raw root dest base t = GOut out /\ In (rel, is_dir m) out.
+Proof.
+  intros. eexists. split; [apply g_tree_out; [facts|facts|eassumption]|].
+  apply list_tree_exact. split; auto. exists m. auto.
+Qed.
 Print Assumptions listtree_excl_complete.
 
 (* ---- sub-directories ---- *)
-Theorem subdirs_excl_sound : forall pats t rel d, In (rel, d) (subdirs (expand pats) t) -> ~ fully_matched pats rel.
-Proof. intros pats t rel d H F. apply subdirs_exact in H as ((m & _ & _ & C) & _). eapply fully_matched_not_clear; eauto. Qed.
+Theorem subdirs_excl_sound : forall raw pats root dest base t, gcompile gen raw = Some pats ->
+  exists out, grun_op gen OSubDirs raw root dest base t = GOut out /\
+              forall rel d, In (rel, d) out -> ~ fully_matched pats rel.
+Proof.
+  intros. eexists. split; [apply g_sub_out; [reflexivity|facts|eassumption]|].
+  intros rel d I M. apply subdirs_exact in I as ((m & _ & _ & C) & _). eapply fully_matched_not_clear; eauto.
+Qed.
 Print Assumptions subdirs_excl_sound.
 
-Theorem subdirs_excl_complete : forall pats t x m,
-  at_path t [x] m -> is_dir m = true -> clear pats [x] -> In ([x], true) (subdirs (expand pats) t).
-Proof. intros pats t x m A D C. apply subdirs_exact. repeat split; auto. exists m. auto. Qed.
+Theorem subdirs_excl_complete : forall raw pats root dest base t x m, gcompile gen raw = Some pats ->
+  at_path t [x] m -> is_dir m = true -> clear pats [x] ->
+  exists out, grun_op gen OSubDirs raw root dest base t = GOut out /\ In ([x], true) out.
+Proof.
+  intros. eexists. split; [apply g_sub_out; [reflexivity|facts|eassumption]|].
+  apply subdirs_exact. repeat split; auto. exists m. auto.
+Qed.
 Print Assumptions subdirs_excl_complete.
 
 (* ---- zip ---- *)
-Theorem zip_excl_sound : forall pats root t rel d,
-  In (rel, d) (zip_entries (expand pats) root t) -> ~ fully_matched pats rel.
-Proof. intros pats root t rel d H F. apply zip_exact in H as (_ & (m & _ & _ & C) & _). eapply fully_matched_not_clear; eauto. Qed.
+Theorem zip_excl_sound : forall raw pats root dest base t, gcompile gen raw = Some pats ->
+  exists out, grun_op gen OZip raw root dest base t = GOut out /\
+              forall rel d, In (rel, d) out -> ~ fully_matched pats rel.
+Proof.
+  intros. eexists. split; [apply g_zip_out; [facts|facts|facts|eassumption]|].
+  intros rel d I M. apply zip_exact in I as (_ & (m & _ & _ & C) & _). eapply fully_matched_not_clear; eauto.
+Qed.
 Print Assumptions zip_excl_sound.
 
-Theorem zip_excl_complete : forall pats root t rel m,
+Theorem zip_excl_complete : forall raw pats root dest base t rel m, gcompile gen raw = Some pats ->
   ~ hit pats root -> at_path t rel m -> rel <> [] -> clear pats rel ->
-  In (rel, is_dir m) (zip_entries (expand pats) root t).
-Proof. intros. apply zip_exact. repeat split; auto. exists m. auto. Qed.
+  exists out, grun_op gen OZip raw root dest base t = GOut out /\ In (rel, is_dir m) out.
+Proof.
+  intros. eexists. split; [apply g_zip_out; [facts|facts|facts|eassumption]|].
+  apply zip_exact. repeat split; auto. exists m. auto.
+Qed.
 Print Assumptions zip_excl_complete.
 
-(* ---- copy (tests whole paths) ---- *)
-(* everything created under dest is the image of an entry reached through names without a match *)
-Theorem copy_excl_sound : forall pats src dest base dest_exists t rel d,
-  In (rel, d) (copy_top (expand pats) src dest base dest_exists t) ->
-  exists rel', rel = dest_prefix dest_exists base ++ rel' /\ (exists m, at_path t rel' m /\ is_dir m = d) /\
-               ~ fully_matched pats rel'.
+(* ---- copy (tests whole source and destination paths) ---- *)
+Theorem copy_excl_sound : forall raw pats src dest base dest_exists t, gcompile gen raw = Some pats ->
+  exists out, grun_op gen (OCopy dest_exists) raw src dest base t = GOut out /\
+    forall rel d, In (rel, d) out ->
+      exists rel', rel = dest_prefix dest_exists base ++ rel' /\ (exists m, at_path t rel' m /\ is_dir m = d) /\
+                   ~ fully_matched pats rel'.
 Proof.
-  intros. apply copy_top_sound in H as (rel' & E & A & C). exists rel'. repeat split; auto.
-  intro F. eapply fully_matched_not_clear; eauto.
+  intros. eexists. split; [apply g_copy_out; [facts|facts|eassumption]|].
+  intros rel d I. apply copy_top_sound in I as (rel' & E & A & C). exists rel'. repeat split; auto.
+  intro M. eapply fully_matched_not_clear; eauto.
 Qed.
 Print Assumptions copy_excl_sound.
 
 (* complete for patterns that cannot match the separator; source and destination paths without a match *)
-Theorem copy_excl_complete : forall pats src dest base dest_exists t rel m,
+Theorem copy_excl_complete : forall raw pats src dest base dest_exists t rel m, gcompile gen raw = Some pats ->
   all_sepfree pats -> ~ hit pats src -> ~ hit pats dest -> (dest_exists = true -> ~ hit pats base) ->
   at_path t rel m -> clear pats rel ->
-  In (dest_prefix dest_exists base ++ rel, is_dir m) (copy_top (expand pats) src dest base dest_exists t).
-Proof. exact copy_top_complete. Qed.
+  exists out, grun_op gen (OCopy dest_exists) raw src dest base t = GOut out /\
+              In (dest_prefix dest_exists base ++ rel, is_dir m) out.
+Proof.
+  intros. eexists. split; [apply g_copy_out; [facts|facts|eassumption]|]. now apply copy_top_complete.
+Qed.
 Print Assumptions copy_excl_complete.
 
 (* FINDING D29 — the restriction is necessary: with pattern a.b and the tree a/b no name contains a match, the
-   listings report a/b (walk_excl_complete), yet Copy skips it. Replayed on the implementation on every run. *)
+   listings report a/b, yet Copy skips it. Replayed on the implementation on every run. *)
 Theorem copy_excl_complete_refuted :
-  exists pats src dest t rel m,
+  exists raw pats src dest t rel m, gcompile gen raw = Some pats /\
     ~ hit pats src /\ ~ hit pats dest /\ at_path t rel m /\ clear pats rel /\
-    ~ In (rel, is_dir m) (copy_top (expand pats) src dest [] false t).
-Proof. exact copy_complete_refuted. Qed.
+    forall out, grun_op gen (OCopy false) raw src dest [] t = GOut out -> ~ In (rel, is_dir m) out.
+Proof.
+  destruct copy_complete_refuted as (pats & src & dest & t & rel & m & S & D & A & C & N).
+  exists (map Good pats), pats, src, dest, t, rel, m. repeat split; auto; [apply gcompile_goods|].
+  intros out R. rewrite (g_copy_out gen (map Good pats) pats) in R; [|facts|facts|apply gcompile_goods].
+  inversion R; subst. exact N.
+Qed.
 Print Assumptions copy_excl_complete_refuted.
 
 (* ---- remove ---- *)
-(* an entry with a fully matched component survives, with everything it holds (the same sub-tree m) *)
-Theorem remove_excl_sound : forall pats root t rel m,
+(* an entry with a fully matched component survives, with everything it holds *)
+Theorem remove_excl_sound : forall raw pats root dest base t rel m, gcompile gen raw = Some pats ->
   at_path t rel m -> fully_matched pats rel ->
-  exists t', remove_node (expand pats) root t = Some t' /\ at_path t' rel m.
-Proof. intros. apply remove_keeps; auto. now apply fully_matched_name_excluded. Qed.
+  exists t', grun_op gen ORemove raw root dest base t = GOut (all_entries t') /\ at_path t' rel m.
+Proof.
+  intros raw pats root dest base t rel m HC A M.
+  destruct (remove_keeps (expand pats) t root rel m A (fully_matched_name_excluded _ _ M)) as (t' & R & A').
+  exists t'. split; auto. rewrite (g_remove_out gen raw pats); [|reflexivity|facts|assumption]. now rewrite R.
+Qed.
 Print Assumptions remove_excl_sound.
 
-(* if nothing at or below rel contains a match (and the root path does not either) nothing is left at rel:
-   it is deleted unless it is an ancestor of an entry that a pattern lets survive *)
-Theorem remove_excl_complete : forall pats root t rel,
+(* if nothing at or below rel contains a match (and the root path does not either) nothing is left at rel *)
+Theorem remove_excl_complete : forall raw pats root dest base t rel, gcompile gen raw = Some pats ->
   ~ hit pats root -> (forall rel2 m2, at_path t (rel ++ rel2) m2 -> clear pats (rel ++ rel2)) ->
-  forall t', remove_node (expand pats) root t = Some t' -> forall m', ~ at_path t' rel m'.
+  exists r, grun_op gen ORemove raw root dest base t = GOut (survivors r) /\
+            forall t', r = Some t' -> forall m', ~ at_path t' rel m'.
 Proof.
-  intros pats root t rel R C t' H m' A.
-  destruct (remove_survivor _ _ _ _ _ _ H A) as [X|(rel2 & m2 & A2 & N)].
+  intros raw pats root dest base t rel HC R C. exists (remove_node (expand pats) root t).
+  split; [apply g_remove_out; [reflexivity|facts|assumption]|].
+  intros t' H m' A. destruct (remove_survivor _ _ _ _ _ _ H A) as [X|(rel2 & m2 & A2 & N)].
   - now apply excl_expand_iff in X.
   - eapply name_excluded_not_clear; eauto.
 Qed.
 Print Assumptions remove_excl_complete.
 
 (* ---- clean ---- *)
-Theorem clean_excl_sound : forall pats t rel m,
-  at_path t rel m -> fully_matched pats rel -> at_path (clean_dir (expand pats) t) rel m.
-Proof. intros. apply clean_keeps; auto. now apply fully_matched_name_excluded. Qed.
+Theorem clean_excl_sound : forall raw pats root dest base t rel m, gcompile gen raw = Some pats ->
+  at_path t rel m -> fully_matched pats rel ->
+  exists t', grun_op gen OClean raw root dest base t = GOut (all_entries t') /\ at_path t' rel m.
+Proof.
+  intros raw pats root dest base t rel m HC A M. exists (clean_dir (expand pats) t).
+  split; [apply g_clean_out; [reflexivity|facts|assumption]|].
+  apply clean_keeps; auto. now apply fully_matched_name_excluded.
+Qed.
 Print Assumptions clean_excl_sound.
 
-Theorem clean_excl_complete : forall pats t rel,
+Theorem clean_excl_complete : forall raw pats root dest base t rel, gcompile gen raw = Some pats ->
   rel <> [] -> (forall rel2 m2, at_path t (rel ++ rel2) m2 -> clear pats (rel ++ rel2)) ->
-  forall m', ~ at_path (clean_dir (expand pats) t) rel m'.
+  exists t', grun_op gen OClean raw root dest base t = GOut (all_entries t') /\ forall m', ~ at_path t' rel m'.
 Proof.
-  intros pats t rel NE C m' A. destruct (clean_survivor _ _ _ _ A) as [->|(rel2 & m2 & A2 & N)]; [congruence|].
+  intros raw pats root dest base t rel HC NE C. exists (clean_dir (expand pats) t).
+  split; [apply g_clean_out; [reflexivity|facts|assumption]|].
+  intros m' A. destruct (clean_survivor _ _ _ _ A) as [->|(rel2 & m2 & A2 & N)]; [congruence|].
   eapply name_excluded_not_clear; eauto.
 Qed.
 Print Assumptions clean_excl_complete.
 
-(* D11, repaired: CleanDir used to remove the entries of the cleaned directory WITHOUT the patterns, so a protected
-   entry below the first level was lost. Kept as documentation of the defect; the harness replays the witness. *)
+(* ---- all operations ---- *)
+(* any uncompilable pattern: every operation answers 'invalid' before anything happens (needs: ErrInvalid kind, no
+   operation builds patterns of its own, Zip / Remove / CleanDir validate before their first backend call) *)
+Theorem invalid_pattern_rejected_first : forall op raw root dest base t,
+  In Bad raw -> grun_op gen op raw root dest base t = GInvalid.
+Proof. intros. apply g_invalid; auto; destruct op; reflexivity. Qed.
+Print Assumptions invalid_pattern_rejected_first.
+
+(* D11, repaired: with the facts of the code before the repair (CleanDir does not hand the patterns down) a protected
+   entry below the first level is lost. Kept as documentation; the harness replays the witness on every run. *)
 Theorem clean_excl_refuted_before_fix :
   exists pats t rel m, at_path t rel m /\ fully_matched pats rel /\
-    ~ at_path (clean_dir_unfixed (expand pats) t) rel m.
-Proof. exact clean_unfixed_refuted. Qed.
+    ~ at_path (gclean_dir facts_before_fix (gexpand facts_before_fix pats) [116] t) rel m.
+Proof.
+  exists [Chr 98], d29_tree, [[97]; [98]], File. repeat split.
+  - econstructor; [left; reflexivity|]. econstructor; [left; reflexivity|]. constructor.
+  - exists [98], (Chr 98). repeat split; [right; now left | now left | constructor].
+  - vm_compute. intro A. apply at_path_cons in A as (ch & c & E0 & I & _). inversion E0; subst. destruct I.
+Qed.
 Print Assumptions clean_excl_refuted_before_fix.
 
-(* ---- non-vacuity: the hypotheses are satisfiable and the operations do something ---- *)
+(* ---- non-vacuity: the hypotheses are satisfiable and the generated instance does something ---- *)
 Definition ex_tree : node :=                         (* ab/{x, d/a}, xab/x, d/{ab/d, a}, b *)
   Dir [([97;98], Dir [([120], File); ([100], Dir [([97], File)])]);
        ([120;97;98], Dir [([120], File)]);
        ([100], Dir [([97;98], Dir [([100], File)]); ([97], File)]);
        ([98], File)].
-Definition ex_pats : list re := [Cat (Chr 97) (Chr 98)].      (* ab *)
-Example ex_root_clear : ~ hit ex_pats [47;119;47;116].        (* /w/t *)
+Definition ex_raw : list rawpat := [Blank; Good (Cat (Chr 97) (Chr 98))].      (* " ", ab *)
+Definition ex_pats : list re := [Cat (Chr 97) (Chr 98)].
+Definition ex_root : str := [47;119;47;116].                                      (* /w/t *)
+Example ex_compile : gcompile gen ex_raw = Some ex_pats. Proof. reflexivity. Qed.
+Example ex_root_clear : ~ hit ex_pats ex_root.
 Proof. apply excl_expand_false. reflexivity. Qed.
-Example ex_walk : map fst (walk (expand ex_pats) [47;119;47;116] ex_tree) = [[]; [[100]]; [[100];[97]]; [[98]]].
+Example ex_walk : grun_op gen OWalk ex_raw ex_root [] [] ex_tree =
+  GOut [([], true); ([[100]], true); ([[100];[97]], false); ([[98]], false)].
 Proof. reflexivity. Qed.
-Example ex_remove : survivors (remove_node (expand ex_pats) [47;119;47;116] ex_tree) =
+Example ex_remove : grun_op gen ORemove ex_raw ex_root [] [] ex_tree = GOut
   [([], true); ([[97;98]], true); ([[97;98];[120]], false); ([[97;98];[100]], true); ([[97;98];[100];[97]], false);
    ([[120;97;98]], true); ([[120;97;98];[120]], false); ([[100]], true); ([[100];[97;98]], true); ([[100];[97;98];[100]], false)].
 Proof. reflexivity. Qed.
@@ -187,6 +276,7 @@ Example ex_clear : clear ex_pats [[100]; [97]].
 Proof. intros c [<-|[<-|[]]]; apply excl_expand_false; reflexivity. Qed.
 Example ex_sepfree : all_sepfree ex_pats.
 Proof. intros p [<-|[]]. reflexivity. Qed.
-Example ex_copy : map fst (copy_top (expand ex_pats) [116] [111] [116] true ex_tree) =
-  [[[116]]; [[116];[100]]; [[116];[100];[97]]; [[116];[98]]].
+Example ex_copy : grun_op gen (OCopy true) ex_raw [116] [111] [116] ex_tree =
+  GOut [([[116]], true); ([[116];[100]], true); ([[116];[100];[97]], false); ([[116];[98]], false)].
 Proof. reflexivity. Qed.
+Example ex_generated_facts_are_the_expected_ones : gen = expected_facts. Proof. reflexivity. Qed.
